@@ -579,6 +579,69 @@ example : replay 2 [.enter 0, .enter 0, .leave 0, .enter 0, .leave 0, .request, 
 end nesting
 
 
+
+/-! ## which operations the resize waits for; several handles on one environment -/
+section brackets
+open TxCount
+
+/-- Every store operation that opens an LMDB transaction of its own — `get_ser` with and without a
+deserialisation mode (both go through `get_with`), `exists`, `iter` (until the iterator is
+dropped), `batch()` (until commit / drop) — is bracketed: its counter events on thread `t` start
+with `enter t` and end with `leave t`; batch reads and child batches have no counter of their own
+(they live inside their batch's bracket). -/
+theorem every_read_is_bracketed (t : Nat) (op : StoreOp) (h : op.ownTxn = true) :
+    ∃ mid, op.trace t = Act.enter t :: mid ++ [Act.leave t] := by
+  cases op with
+  | getSer => exact ⟨[], rfl⟩
+  | getSerMode => exact ⟨[], rfl⟩
+  | existsKey => exact ⟨[], rfl⟩
+  | iter body => exact ⟨body, rfl⟩
+  | batch body => exact ⟨body, rfl⟩
+  | batchRead => simp [StoreOp.ownTxn] at h
+  | childBatch => simp [StoreOp.ownTxn] at h
+
+/-- … and while any bracketed operation is in flight no resize can run: in every state reachable
+by the atomic protocol, right after an `enter` (of any thread, nested or not) and as long as the
+counter has not returned to 0, the resize transition is disabled — `env.resize` never remaps the
+file under a read that is between its `enter_tx` and the drop of its `TxCounter`. -/
+theorem no_resize_while_read_in_flight (threads : Nat) (acts : List Act) (s : TxCount.St) (t : Nat)
+    (hrun : runChecked (TxCount.init threads) acts = some s)
+    (he : enabled s (.enter t) = true) :
+    enabled (TxCount.step s (.enter t)) .resize = false ∧
+    0 < depth (TxCount.step s (.enter t)) t ∧
+    (∀ s', s'.counter ≠ 0 → enabled s' .resize = false) := by
+  have hlen : s.ths.length = threads := by
+    rw [length_run acts _ s hrun]; simp [TxCount.init]
+  simp only [enabled, Bool.and_eq_true, decide_eq_true_eq] at he
+  refine ⟨by simp [enabled, TxCount.step], ?_, fun s' h => by simp [enabled, h]⟩
+  simp only [depth, TxCount.step, thOf_setTh_same _ _ _ he.1]
+  omega
+
+end brackets
+
+/-- The resize decision is a function of the shared environment's state only: a history in which
+every action is labelled with the `Store` handle that performed it (any number of handles, any
+assignment) leaves exactly the state of the unlabelled history — there is no per-handle history in
+the protocol; in particular, whichever handle's `batch()` comes next when the usage is above the
+threshold and nothing is open, whoever committed last, the map is enlarged
+(`postponed_resize_happens`). -/
+theorem resize_decision_is_env_state_only (e : REnv) (l : List (Nat × RAct)) (relabel : Nat → Nat) :
+    hrun e l = rrun e (l.map Prod.snd) ∧
+    hrun e (l.map (fun x => (relabel x.1, x.2))) = hrun e l := by
+  have h1 : ∀ (l : List (Nat × RAct)) (e : REnv), hrun e l = rrun e (l.map Prod.snd) := by
+    intro l
+    induction l with
+    | nil => intro e; rfl
+    | cons x r ih => intro e; simp only [hrun, rrun, List.foldl, List.map_cons] at ih ⊢; exact ih _
+  refine ⟨h1 l e, ?_⟩
+  rw [h1, h1, List.map_map]
+  rfl
+
+/-- non-vacuity: handle 1 commits past the threshold (its own `batch()` calls found the map still
+below it), handle 0 — whose last batch was long ago — calls `batch()`: resized -/
+example : (hrun (rinit 1048576 1048576) [(1, .call 500000), (1, .call 800000), (0, .call 980000)]).mapSize = 2097152 ∧
+    (hrun (rinit 1048576 1048576) [(7, .call 500000), (7, .call 800000), (7, .call 980000)]).mapSize = 2097152 := by decide
+
 /-! ## growth without bound: batch after batch through any number of resizes -/
 
 /-- one `Store::batch()` with nothing open keeps the growth invariant and establishes it for the
